@@ -2,8 +2,8 @@
 
 G12  Circuit::computeRows: the cells pushed as obstacles are exactly those that are fixed AND flagged as
      obstruction, with their *placed* footprint; every extra obstacle is kept; every row is processed
-G13  Row::freespace: the row is inserted positively, every obstacle subtractively, every emitted segment has the
-     row's full height and the row's orientation
+G13  Row::freespace: the row is inserted positively, every obstacle subtractively, the difference is cut into vertical
+     strips, every emitted segment has the row's full height and the row's orientation
 QF   geometry frame: computeRows / freespace / placement-area helpers never combine raw and placed geometry
 QA   axis typing: x and y quantities are never compared / subtracted / min-maxed across axes in the geometry helpers
 ROLE constructor arguments of Rectangle / Row / boost rectangles carry the axis and bound (min/max) their position requires
@@ -189,6 +189,18 @@ def check_g13(ctx, rep):
     elif okneg is False:
         rep.violation("G13", f.decl, f, "obstacles are not all subtracted", "no full-range loop inserting each obstacle with the subtract flag",
                       key="Row::freespace|obstacles not subtracted")
+    # slicing direction of the decomposition: the full-height filter below presumes vertical strips
+    decs = [x for x in walk(f.body) if x.get("kind") in ("CallExpr", "CXXMemberCallExpr") and callee_info(x) and callee_info(x)["name"] == "get_rectangles"]
+    if not decs:
+        rep.unknown("G13", f.decl, f, "decomposition of the difference", "no call to boost::polygon get_rectangles found (shape changed)")
+    for x in decs:
+        names = {y.get("referencedDecl", {}).get("name") for y in walk(x) if y.get("kind") == "DeclRefExpr"}
+        if "HORIZONTAL" in names:
+            rep.violation("G13", x, f, "the difference is sliced into horizontal slabs",
+                          "the full-height filter then drops every column next to a partially covering obstruction; vertical strips (the default) are required",
+                          key="Row::freespace|horizontal slicing")
+        else:
+            rep.holds("G13", x, f, "the difference is decomposed into vertical strips (%s)" % ("explicit VERTICAL" if "VERTICAL" in names else "library default"))
     # emitted rows
     emits = [x for x in walk(f.body) if x.get("kind") == "CXXMemberCallExpr" and callee_info(x)["name"] in ("emplace_back", "push_back")
              and "Row" in qt(callee_info(x)["obj"])]
